@@ -33,6 +33,28 @@ pub fn evo_case(case: &Value, dispatch: Dispatch, r: &mut Report) {
     let v1 = case["v1"].as_bool().unwrap_or(false);
     let same = case["wt"] == case["rt"];
 
+    // --- implementation trace of the record mechanism: one writer run, then one reader run on its bytes
+    if let Some(path) = case.get("atrace").and_then(|p| p.as_str()) {
+        let tcase = json!({"trace": path});
+        if let Some(mut t) = crate::trace::TraceFile::open(&tcase) {
+            t.line(json!({"ev": "case", "w": case["wdecl"], "r": case["rdecl"]}));
+            t.start();
+            let enc = crate::ops::stream_encode(&[(wops, v)]);
+            let evs = t.stop();
+            crate::trace::adt_events(&mut t, &evs);
+            t.line(json!({"ev": "wend", "ok": enc.is_ok() as i32}));
+            if let Outcome::Ok(real) = &enc {
+                t.start();
+                let dec = rops.decode_top(real);
+                let evs = t.stop();
+                crate::trace::adt_events(&mut t, &evs);
+                t.line(json!({"ev": "rend", "ok": dec.is_ok() as i32}));
+            }
+            t.flush();
+            r.count("adt_traced");
+        }
+    }
+
     // the writer produces the specification's bytes
     r.count("evo_enc");
     let encs = wops.encode(v);
